@@ -86,6 +86,9 @@ func inFocus(prop string, o op) bool {
 	if o.Kind == "inject-user-gateway" {
 		return prop == "C06"
 	}
+	if strings.HasPrefix(o.Arg, "hdr-") && strings.HasPrefix(o.Kind, "inject-") {
+		return prop == "C06" // header-altered transactions offered to the pool: admission is C06's subject (refused: no new states)
+	}
 	if o.Kind == "block-after-failed-write" {
 		return prop == "C04" // fault injection into the commit: the "appended only if…, unchanged otherwise" clause of C04
 	}
